@@ -438,14 +438,17 @@ def pp_setup(ctx):
 
     def parse_string(ctx_, self, args, kwargs):
         ctx_.event("parse_string", args[0], tuple(ctx_.ghost.get("dir_stack", [])))
+        ctx_.event("parse_string-args", tuple(args), dict(kwargs))
         if ctx_.choose(2, "parse_string-raises") == 1:
             raise PyRaise(ExcVal("ArgumentError", origin="parse_string"))
         return Rec("Namespace")
 
     self = Rec("ArgumentParser", methods={"parse_string": parse_string})
     calls = {"Path": path_ctor, "get_config_read_mode": lambda c, a, k: "fr", "os.path.basename": lambda c, a, k: z3.String("basename")}
-    env = {"self": self, "cfg_path": cfg_path, "ext_vars": None, "env": None, "defaults": True, "with_meta": None, "kwargs": {}}
-    return Setup(env=env, calls=calls, cms={"change_to_path_dir": cm_change_to_path_dir(ctx)}, data={"fpath": fpath}, drop_calls=("self._logger.debug",))
+    vals = {"ext_vars": Rec("ext_vars"), "env": z3.Bool("env"), "defaults": z3.Bool("defaults"), "with_meta": z3.Bool("with_meta")}
+    env = {"self": self, "cfg_path": cfg_path, "kwargs": {"_skip_validation": True}}
+    env.update(vals)
+    return Setup(env=env, calls=calls, cms={"change_to_path_dir": cm_change_to_path_dir(ctx)}, data={"fpath": fpath, "vals": vals}, drop_calls=("self._logger.debug",))
 
 
 def pp_check(ctx, st, label):
@@ -462,6 +465,10 @@ def pp_check(ctx, st, label):
 def pp_post(ctx, st, result):
     loads = pp_check(ctx, st, "return")
     ctx.oblige("post", "config-was-parsed-exactly-once", len(loads) == 1)
+    pa = [e for e in ctx.events if e[0] == "parse_string-args"]
+    v = st.data["vals"]
+    ok = len(pa) == 1 and len(pa[0][1]) == 6 and str(pa[0][1][0]) == "cfg_str" and str(pa[0][1][1]) == "basename" and pa[0][1][2] is v["ext_vars"] and pa[0][1][3] is v["env"] and pa[0][1][4] is v["defaults"] and pa[0][1][5] is v["with_meta"] and pa[0][2] == {"_skip_validation": True}
+    ctx.oblige("post", "the-file's-content-is-parsed-as-a-config-string-named-by-the-file's-base-name,with-the-caller's-ext_vars/env/defaults/with_meta-and-private-keywords", ok)
 
 
 def pp_raises(ctx, st, exc):
